@@ -61,7 +61,9 @@ def main():
         sh(f"git -C /repo worktree remove --force {wt}")
         sh("git -C /repo worktree prune")
         shutil.rmtree(scratch, ignore_errors=True)
-    json.dump({"when": time.strftime("%Y-%m-%d %H:%M:%S"), "missed": missed, "results": out}, open(os.path.join(SEEDED, "RERUN.json"), "w"), indent=1)
+    head = sh("git rev-parse --short HEAD", cwd=ROOT)[1].strip()
+    repo_head = sh("git -C /repo rev-parse --short HEAD")[1].strip()
+    json.dump({"when": time.strftime("%Y-%m-%d %H:%M:%S"), "verif_commit": head, "repo_commit": repo_head, "missed": missed, "results": out}, open(os.path.join(SEEDED, "RERUN.json"), "w"), indent=1)
     print("missed:", missed)
     return 1 if missed else 0
 
